@@ -44,9 +44,19 @@ def observe_history(item):
     for step in item["steps"]:
         shutil.rmtree(item["root"], ignore_errors=True)
         os.makedirs(item["root"])
+        settings = dict(step["settings"])
+        incdir = item["root"] + "_inc"
+        shutil.rmtree(incdir, ignore_errors=True)
         for name, text in step["files"].items():
-            open(os.path.join(item["root"], name), "w").write(text)
-        out.append(observe_case({"root": item["root"], "settings": step["settings"]}))
+            if name.startswith("@inc/"):
+                import pathlib
+
+                os.makedirs(incdir, exist_ok=True)
+                open(os.path.join(incdir, name[5:]), "w").write(text)
+                settings["include"] = [pathlib.Path(incdir)]
+            else:
+                open(os.path.join(item["root"], name), "w").write(text)
+        out.append(observe_case({"root": item["root"], "settings": settings}))
     return out
 
 
@@ -136,7 +146,12 @@ def render_pair(seed, files, length_limit, ext_fixed, ext_free, feats, cpp=False
             j = i + 2
             while j < len(stmts) and j - i < 4 and stmts[j].kind == "code" and not stmts[j].label and rng.random() < 0.5:
                 j += 1
-            inc = (f"inc_{f.name}.inc", stmts[i:j], f"vfincmark{seed % 1000}=0")
+            # (an INCLUDEd file is in the source form of the file that includes it, whatever it is called: also `.f90` / `.f` - such a file
+            # lives in an include directory beside the sources, where nothing takes it for a source file of its own)
+            iext = random.Random(seed + 11).choice([".inc", ".inc", ".f90", ".f", ".h", ".F90"])
+            inc = (f"inc_{f.name}{iext}", stmts[i:j], f"vfincmark{seed % 1000}=0")
+            if iext != ".inc":
+                feats.add("include_file_named_like_a_source_file")
             stmts = stmts[:i] + [fgen.Stmt(inc[2])] + stmts[j:]
             feats.add("include_file")
         free_text = layout.Layout(seed, plain=True).free(stmts)
@@ -148,9 +163,9 @@ def render_pair(seed, files, length_limit, ext_fixed, ext_free, feats, cpp=False
         if inc:
             free_text = free_text.replace(inc[2], f"include '{inc[0]}'")
             fixed_text = fixed_text.replace(inc[2], f"include '{inc[0]}'")
-            free_files[inc[0]] = layout.Layout(seed + 1, plain=True).free(inc[1])
+            free_files[("@inc/" if not inc[0].endswith(".inc") else "") + inc[0]] = layout.Layout(seed + 1, plain=True).free(inc[1])
             inc_fixed = lay_fixed.fixed(inc[1], length_limit=length_limit, junk=length_limit)
-            fixed_files[inc[0]] = inc_fixed
+            fixed_files[("@inc/" if not inc[0].endswith(".inc") else "") + inc[0]] = inc_fixed
             feats |= input_features(inc_fixed)
         free_files[f"{f.name}.{ext_free}"] = free_text
         fixed_files[f"{f.name}.{ext_fixed}"] = fixed_text
